@@ -35,7 +35,9 @@ namespace pika::detail {
             if (key[key.size() - 1] == '!') key.erase(key.size() - 1);
 
             std::string value(trim_whitespace(s.substr(p + 1)));
-            config_.insert(map_type::value_type(key, value));
+            // a later entry overrides an earlier one, as it does when the same lines are applied
+            // to the ini tree: the entries arrive in the order environment -> command line
+            config_[key] = value;
         }
     }
 }    // namespace pika::detail
